@@ -166,6 +166,10 @@ def case_session(log, scenario, nfaults=1):
         log.encode(managed.solve, recipes.create, rops.retrieve)
     pre_ops, ops = SCEN[scenario]
     covered = []
+    _dec = iofs.Decider(log)
+
+    def decide(v, key, kw):
+        return _dec(v, key=key, replay=(MOD, "replay_session", kw))
 
     def run():
         ks = [ZInt("k%d" % (i + 1)) for i in range(nfaults)]
@@ -205,11 +209,11 @@ def case_session(log, scenario, nfaults=1):
                 where = "; ".join("fault %d at step %d %s %s#%d" % (i + 1, h["step"], h["kind"], h["rel"], h["nth"]) for i, h in enumerate(fs.hit)) or "no fault"
                 if exc is None:
                     v = prove_formula(f_new, "[%s] %s, run %d completes: archive == new complete content (plain-dict oracle)" % (scenario, where, attempt + 1))
-                    log.decide(v, key="%s:result:%s" % (scenario, _phase(fs) if attempt else "no-crash"), replay=(MOD, "replay_session", kw))
+                    decide(v, "%s:result:%s" % (scenario, _phase(fs) if attempt else "no-crash"), kw)
                     break
                 v = prove_formula(z3.Or(f_prev, f_new), "[%s] %s: archive is %s or the new complete content" % (
                     scenario, where, "absent" if prev is None else "the previous complete content"))
-                ok = log.decide(v, key="%s:%s" % (scenario, _phase(fs)), replay=(MOD, "replay_session", kw))
+                ok = decide(v, "%s:%s" % (scenario, _phase(fs)), kw)
                 if not ok:
                     break
                 if z3.is_true(z3.simplify(f_new)) and not z3.is_true(z3.simplify(f_prev)):
@@ -229,6 +233,7 @@ def case_session(log, scenario, nfaults=1):
     v = prove_formula(z3.Or(covered), "[%s] the %d explored paths cover every crash index 0 <= k <= %d (%d faults)" % (scenario, len(covered), BIG, nfaults),
                       assumptions=dom, timeout_ms=60000)
     log.decide(v, key="%s:coverage" % scenario)
+    _dec.finish()
 
 
 # ---------------------------------------------------------------------------
@@ -240,6 +245,7 @@ _CMP_KINDS = ("create", "mkdir", "tar-open", "tar-add", "tar-close", "rmtree", "
 def _norm_real_trace(trace):
     out = []
     skip = False
+    inx = False
     for kind, p in trace:
         if kind not in _CMP_KINDS:
             continue
@@ -251,6 +257,12 @@ def _norm_real_trace(trace):
         if skip and kind in ("unlink", "rmdir") and "/" not in p.strip("/"):
             continue  # the unlink/rmdir calls rmtree makes internally (dir_fd relative names)
         skip = False
+        if kind == "extractall":
+            inx = True
+        elif inx and kind == "mkdir" and ("/./" in p or p.endswith("/.")):
+            continue  # directories made by TarFile.extractall itself
+        else:
+            inx = False
         if kind == "mkdtemp":
             out.append((kind, ""))
             continue
